@@ -22,6 +22,9 @@ import (
 // and Gets promote them back. Every value is unique and carries its key; all calls are stamped
 // with a monotonic clock at call and return. The recorded history is judged afterwards:
 //
+// A Get that was called while another Get of the same key, which returned the same value, was still
+// running may have shared that Get's singleflight flight: it is judged from that Get's call time.
+//
 //   (a) a hit returns a value that was produced for the key asked;
 //   (b) a hit never returns a value v if some Delete of that key started after v was completely
 //       written and returned before the Get was called;
@@ -120,14 +123,14 @@ func (s *hcSec) HandleAsyncError(err error) {}
 
 // hcJudge applies rules (a)-(d) to a recorded history.
 func hcJudge(h hcHistory) *verifkit.Failure {
-	type prod struct {
-		rec hcRec
-	}
 	prods := map[int]hcRec{}
 	dels := map[int][]hcRec{}
 	sets := map[int][]hcRec{}
+	gets := map[int][]hcRec{}
 	for _, r := range h.Recs {
 		switch r.Kind {
+		case "get":
+			gets[r.K] = append(gets[r.K], r)
 		case "set", "load":
 			prods[r.V] = r
 			if r.Kind == "set" {
@@ -152,6 +155,18 @@ func hcJudge(h hcHistory) *verifkit.Failure {
 		if !ok {
 			return verifkit.Failf("hyconc/never-written"+where, "Get(%d) by goroutine %d returned %d, which nobody wrote", g.K, g.G, g.V)
 		}
+		// a Get that misses memory goes through the shard's singleflight group (promotion from the
+		// secondary tier, or the loader): a caller that arrives while another Get of the same key is
+		// still in its flight receives that flight's result (C13). Which Get led the flight is not
+		// visible from outside, so g is judged from the earliest call of any Get of this key that
+		// returned the same value and had not yet returned when g was called.
+		gCall := g.Call
+		for _, l := range gets[g.K] {
+			if l.Hit && l.V == g.V && l.Call < gCall && l.Ret > g.Call {
+				gCall = l.Call
+			}
+		}
+		g.Call = gCall
 		for _, d := range dels[g.K] {
 			if d.Err == "" && d.Call > p.Ret && d.Ret < g.Call {
 				return verifkit.Failf("hyconc/stale/deleted"+where, "Get(%d) called at %d returned %d, written during [%d,%d] by a %s; Delete(%d) ran during [%d,%d], after the write and before the Get", g.K, g.Call, g.V, p.Call, p.Ret, p.Kind, g.K, d.Call, d.Ret)
@@ -181,7 +196,7 @@ func hcRejudge(raw json.RawMessage) *verifkit.Failure {
 
 type hcCtxKey struct{}
 
-func execHyConc(c hcCase, x *verifkit.Ctx) (fail *verifkit.Failure) {
+func execHyConc(c hcCase, x *verifkit.Ctx, c15 bool) (fail *verifkit.Failure) {
 	if VerifNoMaintenance.Load() {
 		panic("needs real maintenance")
 	}
@@ -306,8 +321,78 @@ func execHyConc(c hcCase, x *verifkit.Ctx) (fail *verifkit.Failure) {
 		f.Sticky = true
 		return f
 	}
+	// C15 at rest: the memory tier honours MaxSize once writes have drained and the workers have settled
+	bound := func(when string) *verifkit.Failure {
+		if n := store.Len(); n > c.MaxSize {
+			return verifkit.Failf("hyconc/memory/unbounded-len", "%s: %d entries resident, MaxSize %d (all costs are 1)", when, n, c.MaxSize)
+		}
+		if n := store.EstimatedSize(); n > c.MaxSize {
+			return verifkit.Failf("hyconc/memory/estimated-size", "%s: EstimatedSize %d, MaxSize %d", when, n, c.MaxSize)
+		}
+		return nil
+	}
+	if c15 {
+		if f := bound("after the programs, writes drained, workers settled"); f != nil {
+			return f
+		}
+	}
 	for k := 0; k < c.Keys; k++ {
 		get(-1, k, true)
+	}
+	if c15 {
+		store.Wait()
+		if !hySettle() {
+			f := verifkit.Failf("hybrid/workers-stuck", "secondary workers did not finish within 20 s")
+			f.Sticky = true
+			return f
+		}
+		if f := bound("after reading every key once more"); f != nil {
+			return f
+		}
+		// C15: with admission probability 1 and room in the hand-off queue (fewer Sets in the case than the
+		// queue holds) an entry evicted for capacity reasons is in the secondary tier afterwards: a key stored
+		// exactly once, without TTL, that nobody deleted is found by the final Get (plain stores; on loading
+		// stores a key has further writers, the loads)
+		if c.Prob == 1 && !c.Loading {
+			type ks struct {
+				sets, dels int
+				v          int
+				ttl        int64
+				ok         bool
+			}
+			st := map[int]*ks{}
+			nSets := 0
+			for _, r := range recs {
+				e := st[r.K]
+				if e == nil {
+					e = &ks{}
+					st[r.K] = e
+				}
+				switch r.Kind {
+				case "set":
+					nSets++
+					e.sets++
+					e.v, e.ttl, e.ok = r.V, r.TTL, r.Ok
+				case "del":
+					e.dels++
+				}
+			}
+			if nSets <= 250 {
+				for _, r := range recs {
+					if r.Kind != "get" || !r.Last {
+						continue
+					}
+					e := st[r.K]
+					if e == nil || e.sets != 1 || !e.ok || e.dels != 0 || e.ttl != 0 {
+						continue
+					}
+					x.Class("at-rest-retrievability-judged")
+					if !r.Hit || r.V != e.v {
+						return verifkit.Failf("hyconc/demotion/lost", "key %d was stored once (value %d, no TTL), never deleted, admission probability 1, %d Sets in the case (hand-off queue holds 256): at rest Get(%d) returned hit=%v value %d", r.K, e.v, nSets, r.K, r.Hit, r.V)
+					}
+				}
+			}
+		}
 	}
 	h := hcHistory{Steered: steered, Recs: recs}
 	sort.SliceStable(h.Recs, func(i, j int) bool { return h.Recs[i].Call < h.Recs[j].Call })
@@ -404,9 +489,19 @@ func genHyConc(t *rapid.T) hcCase {
 	return c
 }
 
+func TestVerifC15Conc(t *testing.T) {
+	verifkit.Run(t, verifkit.Spec[hcCase]{
+		ID: "C15", Gen: genHyConc, Exec: func(c hcCase, x *verifkit.Ctx) *verifkit.Failure { return execHyConc(c, x, true) }, Nondet: true,
+		Rule: "C15 (free-running concurrent tier): the programs of TestVerifC14Conc (2..6 goroutines x 20..120 Set/Get/Delete operations on a hybrid store, MaxSize 2..32, 1..4 workers, secondary calls taking 0/20/200 us); once the programs have joined, writes have drained and the workers have settled: Len <= MaxSize and EstimatedSize <= MaxSize, again after every key was read once more (promotions), and - plain stores, admission probability 1, at most 250 Sets so that the 256-slot hand-off queue cannot overflow - every key stored exactly once without TTL and never deleted is returned by the final Get with its value; non-trivial = at least one demotion, one promotion and one Delete or TTL in the case",
+		Assumptions: []string{
+			"the interleavings are those the Go scheduler produces under the drawn perturbations; a failure does not replay deterministically (the replay file carries the case, which is re-executed 20 times)",
+		},
+	})
+}
+
 func TestVerifC14Conc(t *testing.T) {
 	verifkit.Run(t, verifkit.Spec[hcCase]{
-		ID: "C14", Gen: genHyConc, Exec: execHyConc, Nondet: true, Rejudge: hcRejudge,
+		ID: "C14", Gen: genHyConc, Exec: func(c hcCase, x *verifkit.Ctx) *verifkit.Failure { return execHyConc(c, x, false) }, Nondet: true, Rejudge: hcRejudge, ReplayJudgeOnly: true,
 		Rule: "C14 (free-running concurrent tier): rapid draws a hybrid store (MaxSize 2..32, 1..4 secondary workers, admission probability 1 or 0.5, entry pool on in a third, loading in a third with loader TTL none/2 ms/5 ms/1 h, every secondary call taking 0/20/200 us) and 2..6 goroutine programs of 20..120 operations (Set / SetWithTTL none, 2, 5, 20 ms, 1 h / Get / Delete, drawn Gosched counts) over 2..4 x MaxSize keys (more when keys are write-once); every value is unique, every call is stamped at call and return, all keys are read once more after the workers have settled; non-trivial = at least one demotion, one promotion and one Delete or TTL in the case",
 		Assumptions: []string{
 			"the interleavings are those the Go scheduler produces under the drawn perturbations; a failure is replayed by re-judging the recorded history",
